@@ -152,3 +152,14 @@ func specInterestWire(wire enc.Wire, hdr int, pos uint, apLen uint64) bool {
 //@   ensures result1 == nil && appParam != nil ==> forallIn(0, 32, func(i int) bool { return result0.FinalName[len(result0.FinalName)-1].Val[i] == enc.SpecHashByte(enc.GhostHashSt, i) })
 //@   loop 1 invariant specDigestName(finalName) && sameSlice(finalName[len(finalName)-1].Val, digestBuf) && len(digestBuf) == 32 && sliceArr(digestBuf) == sliceArr(wire[0]) && len(wire) >= 1
 //@   loop 1 invariant enc.GhostHashSt == enc.SpecHashWireFrom(enc.SpecHashAbsorb(enc.SpecHashInit(), wire[0][len(wire[0])-appParamLen-1:]), digestCovered, rangeindex+1)
+
+// ---------------------------------------------------------------------------------------
+// Parsing contexts (C12): the signed portion handed to validators is the one the parser recorded as covered by
+// the signature (and not, e.g., the bytes covered by the parameters digest).
+// ---------------------------------------------------------------------------------------
+
+//@ func (InterestParsingContext).SigCovered
+//@   ensures sameSlice(result, c.sigCovered)
+
+//@ func (DataParsingContext).SigCovered
+//@   ensures sameSlice(result, c.sigCovered)
